@@ -212,7 +212,7 @@ def run_case(case):
             if gi.shape[0] != nseg:
                 res["violations"].append({"key": "segment_shape", "what": f"{gi.shape[0]} segments returned, expected {nseg}"})
                 break
-            if not np.all(np.abs(gm[s] - m) <= tol * (1 + np.abs(m))):
+            if not np.all(((np.abs(gm[s] - m) <= tol * (1 + np.abs(m))) & np.isfinite(m)) | (gm[s] == m)):
                 res["violations"].append({"key": "segment_max_value", "what": f"segment {s}: returned maximum differs from the segment maximum"})
                 break
             ii = np.asarray(gi[s]).astype(int)
